@@ -8,7 +8,34 @@ import sys
 sys.path.insert(0, os.path.dirname(os.path.abspath(__file__)))
 from claims import CLAIMS, NOTE_COMMON   # noqa: E402
 
-CLAIMED = {pid: dict(text=t, note=NOTE_COMMON + n, technique=tech, ref='§7 ' + pid) for pid, (t, n, tech) in CLAIMS.items()}
+import re
+REG = json.load(open(os.path.join(HOME, 'lean', 'registry.json')))
+# translated (regenerated from the source on every run) functions whose refinement theorems are obligations of the property
+TRANSLATED = {
+    'C01': '_generate_transition_count_matrix, row_normalize_matrix', 'C11': '_generate_transition_count_matrix and the md event / pathway kernels',
+    'C05': 'the five dynamical-coring kernels', 'C06': 'the five event / waiting-time / pathway kernels and _intersect',
+    'C07': '_propagate_MCMC_step, _propagate_MCMC', 'C08': '_estimate_waiting_times, _estimate_transition_times (msm)',
+    'C13': '_intersect, _intersect_array, _compare_trajs_symmetric, _compare_trajs_directed',
+    'C14': 'is_quadratic, is_transition_matrix, is_ergodic, is_fuzzy_ergodic, ergodic_mask',
+    'C04': 'is_ergodic, ergodic_mask, row_normalize_matrix', 'C03': 'LumpedStateTraj._estimate_markov_model (Hummer-Szabo projection), row_normalize_matrix, is_ergodic',
+    'C09': '_calc_times', 'C19': '_split_array',
+}
+
+
+def claim_text(pid, t):
+    thms = REG.get(pid, {}).get('theorems', [])
+    nref = sum(1 for x in thms if '.Refine.' in x['name'])
+    nprop = len(thms) - nref
+    t = re.sub(r'^Theorems \(\d+\)', 'Theorems (%d)' % nprop, t)
+    if nref:
+        t += (' Refinement (%d theorems): the Lean translation of %s, regenerated from the working tree by the translator on every run, is proved '
+              'equal to the hand-written model for all inputs, and executed against the real functions (translator validation).' % (nref, TRANSLATED.get(pid, 'the kernels')))
+    return t
+
+
+CLAIMED = {pid: dict(text=claim_text(pid, t), note=NOTE_COMMON + n + ('; translator + runtime libraries PyRt/NpRt (validated per run)' if pid in TRANSLATED else ''),
+                     technique=tech + (' + source-to-Lean translation with refinement proofs' if pid in TRANSLATED else ''), ref='§7 ' + pid)
+           for pid, (t, n, tech) in CLAIMS.items()}
 
 
 def main():
@@ -44,7 +71,9 @@ def main():
                      'serves_properties': sorted(CLAIMED),
                      'kind_free_text': 'hand-written Lean 4 model with machine-checked theorems; Python correspondence '
                                        'harness drives the model through a JSON line protocol and judges real outputs '
-                                       'with the Lean `holds` oracle'}],
+                                       'with the Lean `holds` oracle; translator (py2lean / np2lean) regenerates Lean code for the '
+                                       'numba kernels and numpy-vectorised core functions from the working tree on every run, '
+                                       'refinement theorems prove it equal to the model'}],
         'checks': checks,
         'not_applicable': na,
         'notes': 'See DESIGN.md. Exit 0 held / 1 violation / 2 machinery failure.',
